@@ -50,6 +50,9 @@ func printResult(r *HarnessResult, verbose bool) {
 		}
 	}
 	if verbose {
+		for _, st := range r.StepLog {
+			fmt.Printf("   step %d: %v\n", st.Step, st.Cands)
+		}
 		for _, n := range r.Notes {
 			fmt.Println("   note:", n)
 		}
